@@ -16,6 +16,14 @@ Lists are comma separated without blanks, `-` is the empty list (rank 0).
     `eq s r`, `dims s`, `dim s i`, `get s <idx>` (`get_index`), `rd s <idx>` (`t[idx]`), `wr s <idx> v` (`t[idx] = v`, then
     all cells), `it s` (`iter`), `w s` (`Writable` bytes); one observation per op, joined by `;`.  `M` = `runModel`,
     `S` = `runSpec` (`Props/C19.lean: hist_spec`).
+* `g <D> <ty> ; op ; op ; …`           — an element-generic history over tensor variables 0..3 of `Tensor<T, D>`, `ty` ∈
+    `i64 | str | f64 | unit | zst | nz | rec` (`f64` tokens: `nan 0.0 -0.0 1.0 -1.0 1.5 -2.25 0.1 inf -inf 1e300`, `==` is IEEE; `unit` = `()`
+    token `u`; `zst` = a zero-sized struct, token `z`; `nz` = a zero-sized struct whose `==` is never true, token `n`; `rec` = `key:tag`, `==` compares the key only), ops:
+    `vec s <dims> <data>` (`from_vec`), `sl …` (`from_slice`), `new s <dims> v`, `rdv s <dims> <data>` (`Tensor::read` from the rendered
+    elements), `like s r v` (`new(*r.dims(), v)`), `coll s r` (`from_vec(*r.dims(), r.clone().into_iter().collect())`), `cl`, `cf`,
+    `eq s r`, `ne s r` (also `s = r`: the same object on both sides), `dims`, `dim`, `get`, `rd`, `wr s <idx> v`, `it`, `w`, `dbg` (`{:?}`),
+    `itx s k j q` (an iterator after `k` × `next`, `j` ≤ 300 × `next_back`; `q` ∈ `count | len | last | nth n | nthb n | rev | rest`).
+    `M` = `gRunModel`, `S` = `gRunSpec` at the element type `Elem` below (`Props/C19.lean: ghist_spec`, for every element `==`).
 -/
 open Rlib Rlib.Tensor
 
@@ -268,7 +276,213 @@ def handleHist (hdr : String) (ops : List String) : String :=
           (";".intercalate (s.map (showObs false)))
   | _ => "M INVALID | V INVALID | S any"
 
+/-! ### element-generic histories -/
+
+/-- the element types of the `g` histories; `==` as Rust's `PartialEq` of the corresponding type -/
+inductive Elem where
+  | int (i : Int)
+  | str (s : String)
+  | flt (tok : String) (v : Float)
+  | unit
+  | zst
+  | nzst
+  | kv (k t : Int)
+
+instance : BEq Elem := ⟨fun a b => match a, b with
+  | .int a, .int b => a == b
+  | .str a, .str b => a == b
+  | .flt _ a, .flt _ b => a == b        -- IEEE: NaN != NaN, +0.0 == -0.0
+  | .unit, .unit => true
+  | .zst, .zst => true
+  | .nzst, .nzst => false               -- a zero-sized type whose `==` is never true
+  | .kv k _, .kv k' _ => k == k'      -- records compare by key
+  | _, _ => false⟩
+
+/-- `f64` literals: token, value, `{:?}` text -/
+def fltTable : List (String × Float × String) :=
+  [("nan", 0.0 / 0.0, "NaN"), ("0.0", 0.0, "0.0"), ("-0.0", -0.0, "-0.0"), ("1.0", 1.0, "1.0"), ("-1.0", -1.0, "-1.0"),
+   ("1.5", 1.5, "1.5"), ("-2.25", -2.25, "-2.25"), ("0.1", 0.1, "0.1"), ("inf", 1.0 / 0.0, "inf"), ("-inf", -1.0 / 0.0, "-inf"),
+   ("1e300", 1e300, "1e300")]
+
+def i64Ok (z : Int) : Bool := -9223372036854775808 ≤ z && z ≤ 9223372036854775807
+
+def strOk (s : String) : Bool :=
+  !s.isEmpty && s.toList.all (fun c => c.isAlphanum || c = '.' || c = '+' || c = '-')
+
+def parseElem (ty tok : String) : Option Elem :=
+  match ty with
+  | "i64" => match tok.toInt? with
+    | some z => if i64Ok z then some (.int z) else none
+    | none => none
+  | "str" => if strOk tok then some (.str tok) else none
+  | "f64" => match fltTable.find? (fun e => e.1 == tok) with
+    | some e => some (.flt tok e.2.1)
+    | none => none
+  | "unit" => if tok = "u" then some .unit else none
+  | "zst" => if tok = "z" then some .zst else none
+  | "nz" => if tok = "n" then some .nzst else none
+  | "rec" => match tok.splitOn ":" with
+    | [k, t] => match k.toInt?, t.toInt? with
+      | some k, some t => if i64Ok k && i64Ok t then some (.kv k t) else none
+      | _, _ => none
+    | _ => none
+  | _ => none
+
+def showElem : Elem → String
+  | .int i => toString i
+  | .str s => s
+  | .flt tok _ => tok
+  | .unit => "u"
+  | .zst => "z"
+  | .nzst => "n"
+  | .kv k t => s!"{k}:{t}"
+
+/-- the element's `Writable` text (`f64` and `()` have none: `w` / `rdv` are not part of their histories) -/
+def renderW : Elem → List Char
+  | .flt _ _ => []
+  | .unit => []
+  | .nzst => []
+  | e => (showElem e).toList
+
+/-- the element's `{:?}` text -/
+def renderD : Elem → List Char
+  | .str s => ("\"" ++ s ++ "\"").toList
+  | .flt tok _ => match fltTable.find? (fun e => e.1 == tok) with
+    | some e => e.2.2.toList
+    | none => tok.toList
+  | .unit => "()".toList
+  | .zst => "Z".toList
+  | .nzst => "Nz".toList
+  | e => (showElem e).toList
+
+def dfltElem (ty : String) : Option Elem :=
+  match ty with
+  | "i64" => some (.int 0)
+  | "str" => some (.str "")
+  | "zst" => some .zst
+  | "rec" => some (.kv 0 0)
+  | _ => none
+
+def parseElems (ty s : String) : Option (List Elem) :=
+  if s = "-" then some [] else (s.splitOn ",").mapM (parseElem ty)
+
+def parseGOp (D : Nat) (ty : String) (toks : List String) : Option (GOp Elem) :=
+  let slot (s : String) : Option Nat := match s.toNat? with
+    | some k => if k < 4 then some k else none
+    | none => none
+  let lst (s : String) : Option (List Nat) := match parseNatsComma? s with
+    | some l => if l.length = D then some l else none
+    | none => none
+  let shape (s : String) : Option (List Nat) := match lst s with
+    | some d => if d.all (· > 0) ∧ prod d > 100000 then none else some d
+    | none => none
+  let hasIo : Bool := (dfltElem ty).isSome
+  match toks with
+  | ["vec", s, d, x] => match slot s, shape d, parseElems ty x with
+    | some s, some d, some x => if x.length > 100000 then none else some (.vec s d x)
+    | _, _, _ => none
+  | ["sl", s, d, x] => match slot s, shape d, parseElems ty x with
+    | some s, some d, some x => if x.length > 100000 then none else some (.sl s d x)
+    | _, _, _ => none
+  | ["new", s, d, v] => match slot s, shape d, parseElem ty v with
+    | some s, some d, some v => some (.new s d v)
+    | _, _, _ => none
+  | ["rdv", s, d, x] => match slot s, shape d, parseElems ty x, dfltElem ty with
+    | some s, some d, some x, some df => if x.length > 100000 then none else some (.rdv s d x df)
+    | _, _, _, _ => none
+  | ["like", s, r, v] => match slot s, slot r, parseElem ty v with
+    | some s, some r, some v => some (.like s r v)
+    | _, _, _ => none
+  | ["coll", s, r] => match slot s, slot r with
+    | some s, some r => some (.coll s r)
+    | _, _ => none
+  | ["cl", s, r] => match slot s, slot r with
+    | some s, some r => some (.cl s r)
+    | _, _ => none
+  | ["cf", s, r] => match slot s, slot r with
+    | some s, some r => if s = r then none else some (.cf s r)
+    | _, _ => none
+  | ["eq", s, r] => match slot s, slot r with
+    | some s, some r => some (.eq s r)
+    | _, _ => none
+  | ["ne", s, r] => match slot s, slot r with
+    | some s, some r => some (.ne s r)
+    | _, _ => none
+  | ["dims", s] => (slot s).map .dims
+  | ["dim", s, i] => match slot s, i.toNat? with
+    | some s, some i => some (.dim s i)
+    | _, _ => none
+  | ["get", s, i] => match slot s, lst i with
+    | some s, some i => some (.get s i)
+    | _, _ => none
+  | ["rd", s, i] => match slot s, lst i with
+    | some s, some i => some (.rd s i)
+    | _, _ => none
+  | ["wr", s, i, v] => match slot s, lst i, parseElem ty v with
+    | some s, some i, some v => some (.wr s i v)
+    | _, _, _ => none
+  | ["it", s] => (slot s).map .it
+  | ["w", s] => if hasIo then (slot s).map .w else none
+  | ["dbg", s] => (slot s).map .dbg
+  | ["itx", s, k, j, q] => match slot s, k.toNat?, j.toNat? with
+    | some s, some k, some j =>
+      if k > 200000 ∨ j > 300 then none else
+      match q with
+      | "count" => some (.itx s k j .count)
+      | "len" => some (.itx s k j .len)
+      | "last" => some (.itx s k j .last)
+      | "rev" => some (.itx s k j .rev)
+      | "rest" => some (.itx s k j .rest)
+      | _ => none
+    | _, _, _ => none
+  | ["itx", s, k, j, q, n] => match slot s, k.toNat?, j.toNat?, n.toNat? with
+    | some s, some k, some j, some n =>
+      if k > 200000 ∨ j > 300 ∨ n > 200000 then none else
+      match q with
+      | "nth" => some (.itx s k j (.nth n))
+      | "nthb" => if n > 300 then none else some (.itx s k j (.nthBack n))
+      | _ => none
+    | _, _, _, _ => none
+  | _ => none
+
+def showGObs (raw : Bool) : GObs Elem → String
+  | .done => "ok"
+  | .bool b => showBool b
+  | .nat n => toString n
+  | .nats l => showNats l
+  | .elem a => showElem a
+  | .elems l => showList (l.map showElem)
+  | .opt none => "none"
+  | .opt (some a) => s!"some({showElem a})"
+  | .text cs => escape cs
+  | .panic (some e) => if raw then showP e else (if e = .fuel then "fuel" else "panic")
+  | .panic none => "panic"
+  | .invalid => "INVALID"
+
+def handleGen (hdr : String) (ops : List String) : String :=
+  match tokens hdr with
+  | ["g", d, ty] =>
+    match d.toNat? with
+    | none => "M INVALID | V INVALID | S any"
+    | some D =>
+      if D > 4 then "M INVALID | V INVALID | S any" else
+      match ops.mapM (fun o => parseGOp D ty (tokens o)) with
+      | none => "M INVALID | V INVALID | S any"
+      | some [] => "M INVALID | V INVALID | S any"
+      | some gops =>
+        let m := gRunModel renderW renderD gops
+        let s := gRunSpec renderW renderD gops
+        if m.any GObs.isInvalid || s.any GObs.isInvalid then "M INVALID | V INVALID | S any" else
+        answer3 (";".intercalate (m.map (showGObs true))) (";".intercalate (m.map (showGObs false)))
+          (";".intercalate (s.map (showGObs false)))
+  | _ => "M INVALID | V INVALID | S any"
+
 def handle (line : String) : String :=
+  if (tokens line).head? = some "g" then
+    match splitOps line with
+    | hdr :: ops => handleGen hdr ops
+    | [] => badLine line
+  else
   if (tokens line).head? = some "h" then
     match splitOps line with
     | hdr :: ops => handleHist hdr ops
